@@ -626,4 +626,512 @@ theorem maskPositions_length_le (bs : List Bool) (s : Nat) :
     · have := ih (s + 1); simp only [maskPositions, List.length_cons]; omega
     · have := ih (s + 1); simp only [maskPositions, List.length_cons]; omega
 
+/-! ### `lastIndexOf` (the dict built by `{k: i for i, k in enumerate(keys)}`) -/
+
+theorem lastIndexOf_go_of_not_mem {xs : List String} {k : String} (i : Nat) (acc : Option Nat)
+    (h : k ∉ xs) : lastIndexOf.go k xs i acc = acc := by
+  induction xs generalizing i acc with
+  | nil => rfl
+  | cons x xs ih =>
+    rw [List.mem_cons, not_or] at h
+    have hx : ¬ x = k := fun e => h.1 e.symm
+    simp only [lastIndexOf.go, beq_iff_eq, hx, if_false]
+    exact ih _ _ h.2
+
+/-- result of the scan: either the accumulator (if `k` does not occur) or the last position -/
+theorem lastIndexOf_go_spec {xs : List String} {k : String} (i : Nat) (acc : Option Nat) :
+    (k ∉ xs ∧ lastIndexOf.go k xs i acc = acc) ∨
+    (∃ j, lastIndexOf.go k xs i acc = some (i + j) ∧ xs[j]? = some k ∧
+        ∀ j', j < j' → xs[j']? ≠ some k) := by
+  induction xs generalizing i acc with
+  | nil => left; exact ⟨by simp, rfl⟩
+  | cons x xs ih =>
+    simp only [lastIndexOf.go]
+    rcases ih (i + 1) (if (x == k) = true then some i else acc) with ⟨hn, hg⟩ | ⟨j, hg, hj, hlast⟩
+    · by_cases hx : x = k
+      · right
+        refine ⟨0, ?_, by simp [hx], ?_⟩
+        · rw [hg]; simp [hx]
+        · intro j' hj' hc
+          obtain ⟨j'', rfl⟩ : ∃ j'', j' = j'' + 1 := ⟨j' - 1, by omega⟩
+          rw [List.getElem?_cons_succ] at hc
+          exact hn (List.mem_of_getElem? hc)
+      · left
+        refine ⟨?_, ?_⟩
+        · rw [List.mem_cons, not_or]; exact ⟨fun e => hx e.symm, hn⟩
+        · rw [hg]; simp [hx]
+    · right
+      refine ⟨j + 1, ?_, by simpa using hj, ?_⟩
+      · rw [hg]; congr 1; omega
+      · intro j' hj' hc
+        obtain ⟨j'', rfl⟩ : ∃ j'', j' = j'' + 1 := ⟨j' - 1, by omega⟩
+        rw [List.getElem?_cons_succ] at hc
+        exact hlast j'' (by omega) hc
+
+theorem lastIndexOf_none {ks : List String} {k : String} :
+    lastIndexOf ks k = none ↔ k ∉ ks := by
+  unfold lastIndexOf
+  rcases lastIndexOf_go_spec (xs := ks) (k := k) 0 none with ⟨hn, hg⟩ | ⟨j, hg, hj, _⟩
+  · simp [hn, hg]
+  · rw [hg]
+    simp only [reduceCtorEq, false_iff, Classical.not_not]
+    exact List.mem_of_getElem? hj
+
+/-- `lastIndexOf` returns a valid position holding `k`, and no later position holds `k` -/
+theorem lastIndexOf_spec {ks : List String} {k : String} {i : Nat}
+    (h : lastIndexOf ks k = some i) :
+    i < ks.length ∧ ks[i]? = some k ∧ ∀ j, i < j → ks[j]? ≠ some k := by
+  unfold lastIndexOf at h
+  rcases lastIndexOf_go_spec (xs := ks) (k := k) 0 none with ⟨_, hg⟩ | ⟨j, hg, hj, hlast⟩
+  · rw [hg] at h; cases h
+  · rw [hg] at h
+    simp only [Nat.zero_add, Option.some.injEq] at h
+    subst h
+    exact ⟨(List.getElem?_eq_some_iff.1 hj).1, hj, hlast⟩
+
+theorem lastIndexOf_lt {ks : List String} {k : String} {i : Nat}
+    (h : lastIndexOf ks k = some i) : i < ks.length ∧ ks[i]? = some k :=
+  ⟨(lastIndexOf_spec h).1, (lastIndexOf_spec h).2.1⟩
+
+/-- converse: the last position holding `k` is what `lastIndexOf` returns -/
+theorem lastIndexOf_eq_of_last {ks : List String} {k : String} {i : Nat}
+    (hi : ks[i]? = some k) (hlast : ∀ j, i < j → ks[j]? ≠ some k) :
+    lastIndexOf ks k = some i := by
+  cases h : lastIndexOf ks k with
+  | none => exact absurd (List.mem_of_getElem? hi) (lastIndexOf_none.1 h)
+  | some i' =>
+    obtain ⟨_, h2, h3⟩ := lastIndexOf_spec h
+    congr 1
+    apply Classical.byContradiction
+    intro hne
+    rcases Nat.lt_or_gt_of_ne hne with hlt | hlt
+    · exact h3 i hlt hi
+    · exact hlast i' hlt h2
+
+theorem lastIndexOf_nodup {ks : List String} {k : String} {i : Nat}
+    (hnd : ks.Nodup) (hi : ks[i]? = some k) : lastIndexOf ks k = some i := by
+  apply lastIndexOf_eq_of_last hi
+  intro j hij hj
+  have h1 := List.getElem?_eq_some_iff.1 hi
+  have h2 := List.getElem?_eq_some_iff.1 hj
+  obtain ⟨hi', hik⟩ := h1
+  obtain ⟨hj', hjk⟩ := h2
+  have := (List.getElem_inj (h₀ := hi') (h₁ := hj') hnd).1 (hik.trans hjk.symm)
+  omega
+
+/-! ### `resolveKeys` -/
+
+theorem resolveKeys_cons (iks : List String) (k : String) (rest : List String) :
+    resolveKeys iks (k :: rest) =
+      match lastIndexOf iks k with
+      | none => .error .keyError
+      | some i => match resolveKeys iks rest with
+        | .ok r => .ok (i :: r)
+        | .error e => .error e := by
+  rw [resolveKeys]
+  cases lastIndexOf iks k with
+  | none => rfl
+  | some i => cases resolveKeys iks rest <;> rfl
+
+theorem resolveKeys_ok_cons {iks : List String} {k : String} {rest : List String}
+    {sel : List Nat} (h : resolveKeys iks (k :: rest) = .ok sel) :
+    ∃ i r, lastIndexOf iks k = some i ∧ resolveKeys iks rest = .ok r ∧ sel = i :: r := by
+  rw [resolveKeys_cons] at h
+  cases hl : lastIndexOf iks k with
+  | none => rw [hl] at h; cases h
+  | some i =>
+    rw [hl] at h
+    cases hr : resolveKeys iks rest with
+    | error e => rw [hr] at h; cases h
+    | ok r => rw [hr] at h; cases h; exact ⟨i, r, rfl, rfl, rfl⟩
+
+theorem resolveKeys_spec {iks ks : List String} {sel : List Nat}
+    (h : resolveKeys iks ks = .ok sel) :
+    sel.length = ks.length ∧
+      ∀ t, t < ks.length → ∃ j, sel[t]? = some j ∧ iks[j]? = ks[t]? := by
+  induction ks generalizing sel with
+  | nil => simp [resolveKeys] at h; subst h; simp
+  | cons k rest ih =>
+    obtain ⟨i, r, hl, hr, rfl⟩ := resolveKeys_ok_cons h
+    obtain ⟨ihl, iht⟩ := ih hr
+    refine ⟨by simp [ihl], ?_⟩
+    intro t ht
+    cases t with
+    | zero => exact ⟨i, by simp, by simpa using (lastIndexOf_lt hl).2⟩
+    | succ t =>
+      obtain ⟨j, h1, h2⟩ := iht t (by simpa using ht)
+      exact ⟨j, by simpa using h1, by simpa using h2⟩
+
+/-- exact form: each selected position is the *last* occurrence of the requested key -/
+theorem resolveKeys_eq {iks ks : List String} {sel : List Nat} :
+    resolveKeys iks ks = .ok sel ↔ ks.map (lastIndexOf iks) = sel.map some := by
+  induction ks generalizing sel with
+  | nil => cases sel <;> simp [resolveKeys]
+  | cons k rest ih =>
+    constructor
+    · intro h
+      obtain ⟨i, r, hl, hr, rfl⟩ := resolveKeys_ok_cons h
+      simp [hl, ih.1 hr]
+    · intro h
+      cases sel with
+      | nil => simp at h
+      | cons i r =>
+        simp only [List.map_cons, List.cons.injEq] at h
+        rw [resolveKeys_cons, h.1, ih.2 h.2]
+
+theorem resolveKeys_lt {iks ks : List String} {sel : List Nat}
+    (h : resolveKeys iks ks = .ok sel) : ∀ j ∈ sel, j < iks.length := by
+  induction ks generalizing sel with
+  | nil => simp [resolveKeys] at h; subst h; simp
+  | cons k rest ih =>
+    obtain ⟨i, r, hl, hr, rfl⟩ := resolveKeys_ok_cons h
+    intro j hj
+    rw [List.mem_cons] at hj
+    rcases hj with rfl | hj
+    · exact (lastIndexOf_lt hl).1
+    · exact ih hr j hj
+
+theorem resolveKeys_error_kind {iks ks : List String} {e : Err}
+    (h : resolveKeys iks ks = .error e) : e = .keyError := by
+  induction ks with
+  | nil => simp [resolveKeys] at h
+  | cons k rest ih =>
+    rw [resolveKeys_cons] at h
+    cases hl : lastIndexOf iks k with
+    | none => rw [hl] at h; cases h; rfl
+    | some i =>
+      rw [hl] at h
+      cases hr : resolveKeys iks rest with
+      | error e' => rw [hr] at h; cases h; exact ih hr
+      | ok r => rw [hr] at h; cases h
+
+theorem resolveKeys_absent {iks ks : List String} (h : ∃ k ∈ ks, k ∉ iks) :
+    resolveKeys iks ks = .error .keyError := by
+  cases hr : resolveKeys iks ks with
+  | error e => rw [resolveKeys_error_kind hr]
+  | ok sel =>
+    exfalso
+    obtain ⟨k, hk, hnot⟩ := h
+    obtain ⟨t, ht, hkt⟩ := List.getElem_of_mem hk
+    obtain ⟨_, hspec⟩ := resolveKeys_spec hr
+    obtain ⟨j, _, hj⟩ := hspec t ht
+    rw [List.getElem?_eq_getElem ht, hkt] at hj
+    exact hnot (List.mem_of_getElem? hj)
+
+/-- all keys present ⇒ success -/
+theorem resolveKeys_ok_of_subset {iks ks : List String} (h : ∀ k ∈ ks, k ∈ iks) :
+    ∃ sel, resolveKeys iks ks = .ok sel := by
+  induction ks with
+  | nil => exact ⟨[], rfl⟩
+  | cons k rest ih =>
+    obtain ⟨r, hr⟩ := ih (fun k hk => h k (List.mem_cons_of_mem _ hk))
+    cases hl : lastIndexOf iks k with
+    | none => exact absurd (h k (by simp)) (lastIndexOf_none.1 hl)
+    | some i => exact ⟨i :: r, by rw [resolveKeys_cons, hl, hr]⟩
+
+/-! ### `resolveSlice` -/
+
+theorem resolveSlice_lt {n : Nat} {inputKeys : Res (List String)} {spec : SliceSpec}
+    {sel : List Nat} (hk : ∀ ks, inputKeys = .ok ks → ks.length = n)
+    (h : resolveSlice n inputKeys spec = .ok sel) : ∀ j ∈ sel, j < n := by
+  cases spec with
+  | range a b c => exact pySliceIdx_lt h
+  | idx is => exact resolveIdx_lt h
+  | mask bs =>
+    simp only [resolveSlice] at h
+    split at h
+    · rename_i hlen
+      cases h
+      intro j hj
+      have := maskPositions_lt j hj
+      have : bs.length = n := by simpa using hlen
+      omega
+    · cases h
+  | keys ks =>
+    cases ks with
+    | nil => simp only [resolveSlice] at h; cases h; simp
+    | cons k rest =>
+      simp only [resolveSlice] at h
+      cases hi : inputKeys with
+      | error e => rw [hi] at h; cases h
+      | ok iks =>
+        rw [hi] at h
+        have hlen := hk iks hi
+        intro j hj
+        have := resolveKeys_lt h j hj
+        omega
+
+/-! ### `pyIndex` (Python `l[i]`) -/
+
+/-- value form of `pyIndex` on an in-range index -/
+theorem pyIndex_eq_ok {α} {l : List α} {i : Int} (h1 : -(l.length : Int) ≤ i)
+    (h2 : i < l.length) :
+    pyIndex l i = .ok (l[(if i < 0 then i + (l.length : Int) else i).toNat]'(by
+      split <;> omega)) := by
+  by_cases hi : i < 0
+  · have hnn : ¬ (i + (l.length : Int) < 0) := by omega
+    have hlt : (i + (l.length : Int)).toNat < l.length := by omega
+    simp only [pyIndex, hi, if_true, hnn, if_false, List.getElem?_eq_getElem hlt]
+  · have hlt : i.toNat < l.length := by omega
+    simp only [pyIndex, hi, if_false, List.getElem?_eq_getElem hlt]
+
+theorem pyIndex_oob {α} {l : List α} {i : Int}
+    (h : i < -(l.length : Int) ∨ (l.length : Int) ≤ i) : pyIndex l i = .error .indexError := by
+  by_cases hi : i < 0
+  · have hneg : i + (l.length : Int) < 0 := by omega
+    simp only [pyIndex, hi, if_true, hneg]
+  · have hge : l.length ≤ i.toNat := by omega
+    simp only [pyIndex, hi, if_false, List.getElem?_eq_none_iff.2 hge]
+
+theorem pyIndex_lt' {α} {l : List α} {j : Nat} (h : j < l.length) :
+    pyIndex l (j : Int) = .ok l[j] := by
+  rw [pyIndex_eq_ok (by omega) (by omega)]
+  have h0 : ¬ ((j : Int) < 0) := by omega
+  simp only [h0, if_false, Int.toNat_natCast]
+
+theorem pyIndex_neg {α} {l : List α} {i : Int} (h0 : 0 ≤ i) (h1 : i < l.length) :
+    pyIndex l (i - l.length) = pyIndex l i := by
+  have ha : i - (l.length : Int) < 0 := by omega
+  have hb : ¬ (i < 0) := by omega
+  have hc : i - (l.length : Int) + (l.length : Int) = i := by omega
+  simp only [pyIndex, ha, hb, if_true, if_false, hc]
+
+theorem pyIndex_error' {α} {l : List α} {i : Int} {e : Err} (h : pyIndex l i = .error e) :
+    e = .indexError := by
+  by_cases hr : -(l.length : Int) ≤ i ∧ i < l.length
+  · rw [pyIndex_eq_ok hr.1 hr.2] at h; cases h
+  · rw [pyIndex_oob (by omega)] at h; cases h; rfl
+
+theorem pyIndex_ok_iff {α} {l : List α} {i : Int} :
+    (∃ v, pyIndex l i = .ok v) ↔ -(l.length : Int) ≤ i ∧ i < l.length := by
+  constructor
+  · rintro ⟨v, hv⟩
+    apply Classical.byContradiction
+    intro hn
+    rw [pyIndex_oob (by omega)] at hv
+    cases hv
+  · rintro ⟨h1, h2⟩
+    exact ⟨_, pyIndex_eq_ok h1 h2⟩
+
+theorem pyIndex_map' {α β} (f : α → β) (l : List α) (i : Int) :
+    pyIndex (l.map f) i = (pyIndex l i).map f := by
+  by_cases hr : -(l.length : Int) ≤ i ∧ i < l.length
+  · rw [pyIndex_eq_ok hr.1 hr.2,
+      pyIndex_eq_ok (by rw [List.length_map]; exact hr.1) (by rw [List.length_map]; exact hr.2)]
+    simp only [List.getElem_map, List.length_map]
+    rfl
+  · rw [pyIndex_oob (l := l) (by omega), pyIndex_oob (l := l.map f) (by rw [List.length_map]; omega)]
+    rfl
+
+/-- `l[-1]` is the last element -/
+theorem pyIndex_neg_one {α} {l : List α} (h : l ≠ []) :
+    pyIndex l (-1) = .ok (l.getLast h) := by
+  have hlen : 0 < l.length := List.length_pos_iff.2 h
+  have := pyIndex_neg (l := l) (i := (l.length : Int) - 1) (by omega) (by omega)
+  have e : (l.length : Int) - 1 - (l.length : Int) = -1 := by omega
+  rw [e] at this
+  rw [this]
+  have e2 : (l.length : Int) - 1 = ((l.length - 1 : Nat) : Int) := by omega
+  rw [e2, pyIndex_lt' (by omega), List.getLast_eq_getElem]
+
+/-! ### list-slice algebra (C16) -/
+
+/-- the sub-list of `l` selected by the positions `sel` (out-of-range positions are dropped) -/
+def sliceList {α} (l : List α) (sel : List Nat) : List α := sel.filterMap (l[·]?)
+
+@[simp] theorem sliceList_nil {α} (l : List α) : sliceList l [] = [] := rfl
+
+theorem sliceList_cons_of_lt {α} {l : List α} {i : Nat} (sel : List Nat) (h : i < l.length) :
+    sliceList l (i :: sel) = l[i] :: sliceList l sel := by
+  simp [sliceList, List.getElem?_eq_getElem h]
+
+theorem sliceList_cons_of_ge {α} {l : List α} {i : Nat} (sel : List Nat) (h : l.length ≤ i) :
+    sliceList l (i :: sel) = sliceList l sel := by
+  simp [sliceList, List.getElem?_eq_none_iff.2 h]
+
+/-- with in-range positions, `sliceList` is a plain `map` -/
+theorem sliceList_eq_map {α} [Inhabited α] {l : List α} {sel : List Nat}
+    (h : ∀ j ∈ sel, j < l.length) : sliceList l sel = sel.map (fun j => l[j]!) := by
+  induction sel with
+  | nil => rfl
+  | cons i sel ih =>
+    have hi := h i (by simp)
+    rw [sliceList_cons_of_lt sel hi, ih (fun j hj => h j (List.mem_cons_of_mem _ hj))]
+    simp [hi]
+
+theorem sliceList_length {α} {l : List α} {sel : List Nat} (h : ∀ j ∈ sel, j < l.length) :
+    (sliceList l sel).length = sel.length := by
+  induction sel with
+  | nil => rfl
+  | cons i sel ih =>
+    rw [sliceList_cons_of_lt sel (h i (by simp)), List.length_cons, List.length_cons,
+      ih (fun j hj => h j (List.mem_cons_of_mem _ hj))]
+
+theorem sliceList_getElem? {α} {l : List α} {sel : List Nat} (h : ∀ j ∈ sel, j < l.length)
+    (t : Nat) : (sliceList l sel)[t]? = sel[t]?.bind (l[·]?) := by
+  induction sel generalizing t with
+  | nil => simp
+  | cons i sel ih =>
+    have hi := h i (by simp)
+    rw [sliceList_cons_of_lt sel hi]
+    cases t with
+    | zero => simp [hi]
+    | succ t => simpa using ih (fun j hj => h j (List.mem_cons_of_mem _ hj)) t
+
+theorem sliceList_map {α β} (f : α → β) (l : List α) (sel : List Nat) :
+    sliceList (l.map f) sel = (sliceList l sel).map f := by
+  induction sel with
+  | nil => rfl
+  | cons i sel ih =>
+    by_cases hi : i < l.length
+    · rw [sliceList_cons_of_lt sel (by simpa using hi), sliceList_cons_of_lt sel hi, ih]
+      simp
+    · rw [sliceList_cons_of_ge sel (by simpa using hi), sliceList_cons_of_ge sel (by omega), ih]
+
+theorem sliceList_range {α} (l : List α) : sliceList l (List.range l.length) = l := by
+  apply List.ext_getElem?
+  intro t
+  rw [sliceList_getElem? (by simp)]
+  by_cases ht : t < l.length
+  · simp [ht]
+  · simp [ht]
+
+theorem sliceList_append {α} (l : List α) (s₁ s₂ : List Nat) :
+    sliceList l (s₁ ++ s₂) = sliceList l s₁ ++ sliceList l s₂ := by
+  simp [sliceList, List.filterMap_append]
+
+theorem sliceList_reverse_sel {α} (l : List α) (sel : List Nat) :
+    sliceList l sel.reverse = (sliceList l sel).reverse := by
+  simp [sliceList, List.filterMap_reverse]
+
+/-- **Composition of selections**: selecting from a selection is selecting by the composed
+    index list.  Needs only that the first selection is in range. -/
+theorem sliceList_sliceList {α} {l : List α} {s₁ : List Nat} (h : ∀ j ∈ s₁, j < l.length)
+    (s₂ : List Nat) : sliceList (sliceList l s₁) s₂ = sliceList l (sliceList s₁ s₂) := by
+  induction s₂ with
+  | nil => rfl
+  | cons t s₂ ih =>
+    have hlen := sliceList_length h
+    by_cases ht : t < s₁.length
+    · have hmem : s₁[t] < l.length := h _ (List.getElem_mem ht)
+      rw [sliceList_cons_of_lt s₂ (by omega), sliceList_cons_of_lt s₂ ht,
+        sliceList_cons_of_lt _ hmem, ih]
+      congr 1
+      have := sliceList_getElem? h t
+      rw [List.getElem?_eq_getElem (by omega), List.getElem?_eq_getElem ht] at this
+      simpa [List.getElem?_eq_getElem hmem] using this
+    · rw [sliceList_cons_of_ge s₂ (by omega), sliceList_cons_of_ge s₂ (by omega), ih]
+
+/-- **C16**: nested Python slices compose like list slices. -/
+theorem slice_slice {α} {l : List α} {n : Nat} (hl : l.length = n)
+    {a b c a' b' c' : Option Int} {s₁ s₂ : List Nat}
+    (h₁ : pySliceIdx n a b c = .ok s₁) (_h₂ : pySliceIdx s₁.length a' b' c' = .ok s₂) :
+    sliceList (sliceList l s₁) s₂ = sliceList l (sliceList s₁ s₂) :=
+  sliceList_sliceList (fun j hj => by rw [hl]; exact pySliceIdx_lt h₁ j hj) s₂
+
+/-- the same for any way of producing the first selection (`resolveSlice`) -/
+theorem slice_resolveSlice {α} {l : List α} {n : Nat} (hl : l.length = n)
+    {inputKeys : Res (List String)} {spec : SliceSpec} {s₁ : List Nat}
+    (hk : ∀ ks, inputKeys = .ok ks → ks.length = n)
+    (h₁ : resolveSlice n inputKeys spec = .ok s₁) (s₂ : List Nat) :
+    sliceList (sliceList l s₁) s₂ = sliceList l (sliceList s₁ s₂) :=
+  sliceList_sliceList (fun j hj => by rw [hl]; exact resolveSlice_lt hk h₁ j hj) s₂
+
+/-- the composed selection stays in range -/
+theorem sliceList_sel_lt {n : Nat} {s₁ s₂ : List Nat} (h : ∀ j ∈ s₁, j < n) :
+    ∀ j ∈ sliceList s₁ s₂, j < n := by
+  intro j hj
+  simp only [sliceList, List.mem_filterMap] at hj
+  obtain ⟨t, _, ht⟩ := hj
+  exact h j (List.mem_of_getElem? ht)
+
+/-- `l[:]` is `l` and `l[::-1]` is `l.reverse` -/
+theorem sliceList_full {α} (l : List α) {sel : List Nat}
+    (h : pySliceIdx l.length none none none = .ok sel) : sliceList l sel = l := by
+  rw [pySliceIdx_full] at h; cases h; exact sliceList_range l
+
+theorem sliceList_reversed {α} (l : List α) {sel : List Nat}
+    (h : pySliceIdx l.length none none (some (-1)) = .ok sel) : sliceList l sel = l.reverse := by
+  rw [pySliceIdx_reverse] at h; cases h
+  rw [sliceList_reverse_sel, sliceList_range]
+
+/-- indexing a slice: `l[sel][t] = l[sel[t]]` (for non-negative `t`) -/
+theorem pyIndex_sliceList {α} {l : List α} {sel : List Nat} (h : ∀ j ∈ sel, j < l.length)
+    {t : Nat} (ht : t < sel.length) :
+    pyIndex (sliceList l sel) (t : Int) = pyIndex l (sel[t] : Nat) := by
+  have hlen := sliceList_length h
+  have hm : sel[t] < l.length := h _ (List.getElem_mem ht)
+  rw [pyIndex_lt' (by omega), pyIndex_lt' hm]
+  congr 1
+  have := sliceList_getElem? h t
+  rw [List.getElem?_eq_getElem (by omega), List.getElem?_eq_getElem ht] at this
+  simpa [List.getElem?_eq_getElem hm] using this
+
+/-! ### closed forms for length and entries of a slice selection -/
+
+theorem pySliceIdx_length_pos {n : Nat} {a b : Option Int} {st : Int} {sel : List Nat}
+    (hst : 0 < st) (h : pySliceIdx n a b (some st) = .ok sel) :
+    sel.length = (if clampBound n a 0 0 n < clampBound n b n 0 n then
+      ((clampBound n b n 0 n - clampBound n a 0 0 n - 1) / st + 1).toNat else 0) := by
+  rw [pySliceIdx_pos_eq n a b hst] at h
+  cases h
+  rw [progression_length]
+
+theorem pySliceIdx_length_neg {n : Nat} {a b : Option Int} {st : Int} {sel : List Nat}
+    (hst : st < 0) (h : pySliceIdx n a b (some st) = .ok sel) :
+    sel.length = (if clampBound n b (-1) (-1) (n - 1) < clampBound n a (n - 1) (-1) (n - 1) then
+      ((clampBound n a (n - 1) (-1) (n - 1) - clampBound n b (-1) (-1) (n - 1) - 1) / (-st)
+        + 1).toNat else 0) := by
+  rw [pySliceIdx_neg_eq n a b hst] at h
+  cases h
+  rw [progression_length]
+
+/-- the `t`-th selected position is `start + t * step` (clamped start) -/
+theorem pySliceIdx_getElem?_pos {n : Nat} {a b : Option Int} {st : Int} {sel : List Nat}
+    (hst : 0 < st) (h : pySliceIdx n a b (some st) = .ok sel) {t : Nat} (ht : t < sel.length) :
+    sel[t]? = some (clampBound n a 0 0 n + t * st).toNat := by
+  rw [pySliceIdx_pos_eq n a b hst] at h
+  cases h
+  rw [progression_length] at ht
+  exact progression_getElem? ht
+
+theorem pySliceIdx_getElem?_neg {n : Nat} {a b : Option Int} {st : Int} {sel : List Nat}
+    (hst : st < 0) (h : pySliceIdx n a b (some st) = .ok sel) {t : Nat} (ht : t < sel.length) :
+    sel[t]? = some (clampBound n a (n - 1) (-1) (n - 1) + t * st).toNat := by
+  rw [pySliceIdx_neg_eq n a b hst] at h
+  cases h
+  rw [progression_length] at ht
+  exact progression_getElem? ht
+
+theorem pySliceIdx_length_le {n : Nat} {a b c : Option Int} {sel : List Nat}
+    (h : pySliceIdx n a b c = .ok sel) : sel.length ≤ n := by
+  cases c with
+  | none =>
+    rw [pySliceIdx_spec_none] at h; cases h
+    simpa using List.length_filter_le _ (List.range n)
+  | some st =>
+    rcases Int.lt_trichotomy st 0 with hs | hs | hs
+    · rw [pySliceIdx_spec_neg n a b hs] at h; cases h
+      rw [List.length_reverse]
+      simpa using List.length_filter_le _ (List.range n)
+    · subst hs; rw [pySliceIdx_step_zero] at h; cases h
+    · rw [pySliceIdx_spec_pos n a b hs] at h; cases h
+      simpa using List.length_filter_le _ (List.range n)
+
+/-! ### sanity checks against CPython (`list(range(n))[a:b:c]`) -/
+
+example : pySliceIdx 10 (some 1) (some 8) (some 3) = .ok [1, 4, 7] := rfl
+example : pySliceIdx 10 (some (-3)) none none = .ok [7, 8, 9] := rfl
+example : pySliceIdx 10 none (some (-20)) (some (-4)) = .ok [9, 5, 1] := rfl
+example : pySliceIdx 10 (some 7) (some 2) (some (-2)) = .ok [7, 5, 3] := rfl
+example : pySliceIdx 10 (some 20) (some (-11)) (some (-3)) = .ok [9, 6, 3, 0] := rfl
+example : pySliceIdx 10 (some 5) (some 2) none = .ok [] := rfl
+example : pySliceIdx 0 none none (some (-1)) = .ok [] := rfl
+example : pySliceIdx 5 (some (-1)) (some (-6)) (some (-1)) = .ok [4, 3, 2, 1, 0] := rfl
+example : resolveIdx 5 [-1, 0, -5, 4] = .ok [4, 0, 0, 4] := rfl
+example : resolveIdx 5 [5] = .error .indexError := rfl
+example : resolveKeys ["a", "b", "a"] ["a", "b"] = .ok [2, 1] := rfl
+example : pyIndex [10, 20, 30] (-3) = .ok 10 := rfl
+example : pyIndex [10, 20, 30] (-4) = .error .indexError := rfl
+
 end LazyDs
